@@ -38,6 +38,20 @@ constexpr auto get(const detail::Array<T, 0>&) noexcept
     return T{};
 }
 
+template <class T, std::size_t N>
+constexpr bool operator==([[maybe_unused]] const detail::Array<T, N>& lhs,
+                          [[maybe_unused]] const detail::Array<T, N>& rhs) noexcept
+{
+    if constexpr (N == 0)
+    {
+        return true;
+    }
+    else
+    {
+        return lhs.array_ == rhs.array_;
+    }
+}
+
 template <std::size_t N, class T, std::size_t K, std::size_t... I>
 constexpr auto convert_array_to_size(const detail::Array<T, K>& array, std::index_sequence<I...>)
 {
